@@ -4,6 +4,7 @@ ASSUME RebuildFlatten
 ASSUME ImportNeverDangling
 ASSUME Emit
 ASSUME WideRebuildFlatten
+ASSUME TypesDoNotDetermineShape
 ASSUME IF ViaFree THEN TRUE ELSE EmitWide
 ASSUME CompletedWhateverTheRows
 ASSUME IF ViaFree THEN TRUE ELSE EmitCompositions
